@@ -66,8 +66,10 @@ def groups_of(M, pi, ri):
     return [(ri[r], frozenset(P)) for r, P in sorted(per_ref.items())]
 
 
-def compare_result(ctx, prop, r, exp, metrics, det, feats, tag=""):
-    """compare a read_result dict with the expected numbers; returns number of differences"""
+def compare_result(ctx, prop, r, exp, metrics, det, feats, tag="", lists_only=False):
+    """compare a read_result dict with the expected numbers; returns number of differences.
+    lists_only: judge only the per-instance value lists and their aggregates of `metrics`
+    (used by properties that speak about one metric, not about counts)"""
     nd = 0
 
     def bad(kind, **extra):
@@ -76,9 +78,14 @@ def compare_result(ctx, prop, r, exp, metrics, det, feats, tag=""):
         if nd == 1:
             ctx.viol(kind + tag, dict(det, **extra), prop=prop, features=feats)
 
-    for k in ("num_pred_instances", "num_ref_instances", "tp", "fp", "fn"):
-        if r[k] != exp[k]:
-            bad("count_differs", key=k, got=r[k], expected=exp[k])
+    if lists_only:
+        if r["tp"] != exp["tp"]:
+            ctx.count("lists_only.skipped_tp_differs")
+            return 0
+    else:
+        for k in ("num_pred_instances", "num_ref_instances", "tp", "fp", "fn"):
+            if r[k] != exp[k]:
+                bad("count_differs", key=k, got=r[k], expected=exp[k])
     if nd:
         return nd
     for m in metrics:
@@ -89,6 +96,8 @@ def compare_result(ctx, prop, r, exp, metrics, det, feats, tag=""):
         for key in (NAMES[m], NAMES[m] + "_std"):
             if not pan.same(r[key], exp[key], rel=1e-9, abs_=1e-9):
                 bad("aggregate_differs", key=key, got=r[key], expected=exp[key])
+    if lists_only:
+        return nd
     if not pan.same(r["rq"], exp["rq"], abs_=1e-12):
         bad("aggregate_differs", key="rq", got=r["rq"], expected=exp["rq"])
     for pk in ("pq", "pq_dsc"):
@@ -103,7 +112,7 @@ def compare_result(ctx, prop, r, exp, metrics, det, feats, tag=""):
     return nd
 
 
-def check_evaluate(ctx, prop, pred, refa, cfg, evaluator=None, use_real_pool=False):
+def check_evaluate(ctx, prop, pred, refa, cfg, evaluator=None, use_real_pool=False, lists_only=False):
     """run the real evaluate() on (pred, ref) under cfg and judge it against the reference.
     returns (read_result dict or None, info dict)"""
     metrics = cfg.get("metrics", pan.DEFAULT_METRICS)
@@ -161,6 +170,6 @@ def check_evaluate(ctx, prop, pred, refa, cfg, evaluator=None, use_real_pool=Fal
     if exp["decision_guard"] and not cfg.get("exact"):
         ctx.count("skipped_decision_guard_band")
         return r, info
-    compare_result(ctx, prop, r, exp, metrics, dict(det, M=M), feats)
+    compare_result(ctx, prop, r, exp, metrics, dict(det, M=M), feats, lists_only=lists_only)
     info["exp"] = exp
     return r, info
